@@ -132,12 +132,18 @@ class SmtLibSolver(Solver): # TODO this class is defined twice in pysmt. Here an
         return lst
 
     def _declare_sort(self, sort):
-        cmd = SmtLibCommand(smtcmd.DECLARE_SORT, [sort])
-        self._send_silent_command(cmd)
+        # Instances of a parametric sort share one declaration
+        decl = sort.decl
+        if all(decl not in ds for ds in self.declared_sorts):
+            cmd = SmtLibCommand(smtcmd.DECLARE_SORT, [decl])
+            self._send_silent_command(cmd)
+            self.declared_sorts[-1].add(decl)
         self.declared_sorts[-1].add(sort)
         # The values of this sort, e.g., (as @S_0 S), mention its name
         if sort.arity == 0 and self.parser.cache.get(sort.basename) is None:
             self.parser.cache.bind(sort.basename, sort)
+        elif sort.arity > 0 and self.parser.cache.get(decl.name) is None:
+            self.parser.cache.bind(decl.name, decl)
 
     def _declare_variable(self, symbol):
         cmd = SmtLibCommand(smtcmd.DECLARE_FUN, [symbol])
